@@ -85,7 +85,7 @@ func (m *Mutex) TryLock() bool {
 func (m *Mutex) Unlock() {
 	m.real.Unlock()
 	if simrt.CurrentTask() != nil {
-		simrt.Call(&simrt.Req{Kind: "unlock", Site: site(2),
+		simrt.Call(&simrt.Req{Kind: "unlock", Site: "",
 			Do: func() (*simrt.Resp, bool) {
 				m.st.writer = nil
 				return nil, true
@@ -125,7 +125,7 @@ func (m *RWMutex) Lock() {
 func (m *RWMutex) Unlock() {
 	m.real.Unlock()
 	if simrt.CurrentTask() != nil {
-		simrt.Call(&simrt.Req{Kind: "unlock", Site: site(2),
+		simrt.Call(&simrt.Req{Kind: "unlock", Site: "",
 			Do: func() (*simrt.Resp, bool) {
 				m.st.writer = nil
 				return nil, true
@@ -156,7 +156,7 @@ func (m *RWMutex) RLock() {
 func (m *RWMutex) RUnlock() {
 	m.real.RUnlock()
 	if t := simrt.CurrentTask(); t != nil {
-		simrt.Call(&simrt.Req{Kind: "runlock", Site: site(2),
+		simrt.Call(&simrt.Req{Kind: "runlock", Site: "",
 			Do: func() (*simrt.Resp, bool) {
 				if m.st.readers[t] <= 1 {
 					delete(m.st.readers, t)
